@@ -179,7 +179,17 @@ def roundtrip_job(job):
                     for k in a:
                         if not same(a[k], b[k], 1e-11):
                             out.append({"what": "file-built-consumer", "which": k})
+                # labels assigned after the file was created (as for an in-memory tensor) must reach the file
+                fb.name = ref.name
+                fb.description = ref.description
                 fb.close()
+                for typ in ("file", "simple"):
+                    imp2 = oqupy.import_process_tensor(path3, typ)
+                    if imp2.name != ref.name or imp2.description != ref.description:
+                        out.append({"what": "file-built-labels", "which": typ, "expected": [ref.name, ref.description],
+                                    "observed": [imp2.name, imp2.description]})
+                    if typ == "file":
+                        imp2.close()
             except StopIteration:
                 pass
             finally:
